@@ -54,6 +54,10 @@ pub fn run(ctx: &mut Ctx) {
     lap(ctx, "origins");
     crate::c09_hostile::hostile(ctx, limits);
     lap(ctx, "hostile");
+    crate::c09_hostile::compound(ctx, limits);
+    lap(ctx, "compound");
+    crate::c09_hostile::after_long_valid_prefix(ctx, limits);
+    lap(ctx, "long_prefix");
     crate::c09_hostile::finite_hostile(ctx);
     lap(ctx, "finite_hostile");
     crate::c09_hostile::mutation(ctx);
@@ -90,6 +94,22 @@ fn plan_for(ctx: &Ctx, rng: &mut Rng, i: u64) -> (SizePlan, &'static str) {
     }
 }
 
+/// Object lengths for the one "huge" document of a shard.
+fn huge_lengths(ctx: &mut Ctx) -> Vec<usize> {
+    let top = if ctx.tier == Tier::Thorough { 24 } else { 22 };
+    let mut ladder = Vec::new();
+    for k in 17..=top {
+        let p = 1usize << k;
+        ladder.extend_from_slice(&[p - 1, p, p + 1, p + 2, p / 2 * 3, p / 2 * 3 + 1, p / 2 * 3 + 2]);
+    }
+    let per = if ctx.tier == Tier::Thorough { 4 } else { 2 };
+    let start = ctx.shard as usize * per;
+    let out: Vec<usize> = (0..per).map(|j| ladder[(start + j * 7 + j) % ladder.len()]).collect();
+    ctx.obs_max("roundtrip_largest_object_octets", *out.iter().max().unwrap() as u64);
+    ctx.obs("roundtrip_huge_objects", out.len() as u64);
+    out
+}
+
 fn roundtrips(ctx: &mut Ctx) {
     let n = crate::c09_io::budget(ctx, (7_200, 240_000), 9_000, (8, 48));
     let mut rng = ctx.rng("roundtrip");
@@ -99,6 +119,11 @@ fn roundtrips(ctx: &mut Ctx) {
         let kind = Kind::ALL[(i % 3) as usize];
         let (mut plan, size) = plan_for(ctx, &mut rng, i / 3);
         let big = i / 3 == 0 && !miri;
+        // the second case of every shard carries a few objects far above the
+        // sizes of the rest of the workload: lengths around powers of two and
+        // around 3 * 2^k from 128 KiB up (block sizes of streaming encoders /
+        // decoders), a different pair of lengths in every shard
+        let huge: Vec<usize> = if i / 3 == 1 && !miri { huge_lengths(ctx) } else { Vec::new() };
         if big && kind != Kind::Notification {
             // make sure the total exceeds the header limit many times over
             plan.max_elements = 300;
@@ -129,6 +154,10 @@ fn roundtrips(ctx: &mut Ctx) {
                         m.elements.push((g::gen_rsync(&mut rng, false), rng.bytes(65_536)));
                     }
                 }
+                for n in &huge {
+                    m.elements.push((g::gen_rsync(&mut rng, false), rng.bytes(*n)));
+                }
+                let size = if huge.is_empty() { size } else { "huge" };
                 match l::lib_snap(&m) {
                     Some(v) => rt_snap(ctx, &mut rng, &m, &v, size),
                     None => gen_rejected += 1,
@@ -147,6 +176,11 @@ fn roundtrips(ctx: &mut Ctx) {
                         });
                     }
                 }
+                for (k, n) in huge.iter().enumerate() {
+                    let u = g::gen_rsync(&mut rng, false);
+                    m.elements.push(if k % 2 == 0 { MEl::Publish(u, rng.bytes(*n)) } else { MEl::Update(u, g::gen_hash(&mut rng), rng.bytes(*n)) });
+                }
+                let size = if huge.is_empty() { size } else { "huge" };
                 match l::lib_delta(&m) {
                     Some(v) => rt_delta(ctx, &mut rng, &m, &v, size),
                     None => gen_rejected += 1,
@@ -260,8 +294,9 @@ fn rt_snap(ctx: &mut Ctx, rng: &mut Rng, m: &MSnap, v: &Snapshot, size: &str) {
         }
     }
     // (b) the harness' own ProcessSnapshot implementation
-    let mode = match rng.below(6) {
+    let mode = match rng.below(8) {
         0 => ReadMode::ToEnd,
+        6 | 7 => ReadMode::Mixed(rng.next_u64()),
         1 => ReadMode::Chunk(1),
         2 => ReadMode::Chunk(*rng.pick(&[2usize, 3, 4, 5, 7, 1023, 1024, 1025])),
         3 => ReadMode::Skip,
@@ -298,6 +333,7 @@ fn mode_name(m: ReadMode) -> &'static str {
         ReadMode::Chunk(_) => "chunked",
         ReadMode::Skip => "skip",
         ReadMode::Partial(_) => "partial",
+        ReadMode::Mixed(_) => "mixed_read_calls",
     }
 }
 
@@ -349,8 +385,9 @@ fn rt_delta(ctx: &mut Ctx, rng: &mut Rng, m: &MDelta, v: &Delta, size: &str) {
             }
         }
     }
-    let mode = match rng.below(5) {
+    let mode = match rng.below(7) {
         0 => ReadMode::ToEnd,
+        5 | 6 => ReadMode::Mixed(rng.next_u64()),
         1 => ReadMode::Chunk(*rng.pick(&[1usize, 2, 3, 5, 1024])),
         2 => ReadMode::Skip,
         3 => ReadMode::Partial(*rng.pick(&[1usize, 3, 100])),
